@@ -4,7 +4,7 @@ package main
 // (not in the manifest).
 func init() {
 	props["C00"] = func(r *Report) {
-		r.Guard("C00.R1", "lock pairing over the whole module", func() { lockPairRule(r) })
+		r.Guard("C00.R1", "lock pairing over the whole module", func() { lockPairRule(r); goCaptureRule(r); lastIndexRule(r) })
 	}
 	floors["C00"] = map[string]int{"C00.R1": 1}
 }
